@@ -1040,7 +1040,7 @@ fn dec_packed(ty: &Ty, b: &[u8]) -> Result<Vec<DV>, String> {
     Ok(out)
 }
 
-fn dkey(v: DV) -> Result<DKey, String> {
+pub fn dkey(v: DV) -> Result<DKey, String> {
     Ok(match v {
         DV::U64(x) => DKey::U64(x),
         DV::I64(x) => DKey::I64(x),
